@@ -264,6 +264,9 @@ func (e *Engine) verifyPass(fn *ssa.Function, c *Contract, pre map[string]string
 	}
 	// axioms
 	for _, ax := range e.db.Axioms {
+		if prop != "" && ax.Prop != "" && ax.Prop != prop && !containsStr(ax.Also, prop) {
+			continue
+		}
 		t, err := env.boolExpr(ax.E)
 		if err != nil {
 			tr.errorf("axiom %s: %v", ax.Src, err)
